@@ -72,11 +72,13 @@ def mk_case(f, addr, params, r, fill=None):
             bufs.append(b)
     return {"f": f["idx"], "sc": sc, "bufs": bufs}
 
-def gen_cases(fns, r, quick):
+def gen_cases(fns, r, quick, only=None, first_id=0):
+    """cases for the functions whose index is in `only` (all if None)"""
     cases = []
     def add(c, tag):
         c["tag"] = tag; cases.append(c)
     for f in fns:
+        if only is not None and f["idx"] not in only: continue
         names = f["scalars"][3:] if f["has_addr"] else f["scalars"]
         base = dict(BASE_HINT.get(f["short"], {}))
         # 1. every address form with the base tuple
@@ -99,13 +101,13 @@ def gen_cases(fns, r, quick):
                         p = dict(base); p[n1] = v1; p[n2] = v2
                         add(mk_case(f, DEPTH_ADDR[r.below(4)], p, r), "pair")
         # 4. random tuples from the boundary set / uniformly
-        for _ in range(60 if quick else 3000):
+        for _ in range(60 if quick else 10000):
             p = {n: (r.choice(BOUNDARY) if r.chance(2, 3) else r.below(256)) for n in names}
             for n, v in base.items():
                 if r.chance(1, 2): p[n] = v
             add(mk_case(f, r.choice(ADDRS), p, r), "random")
     # 5. payloads: every length 0..max+1 at every depth, with contents that exercise the copy loops
-    by = {f["short"]: f for f in fns}
+    by = {f["short"]: f for f in fns if only is None or f["idx"] in only}
     def payload(short, pfun, lens, fills=(None,)):
         if short not in by: return
         for a in DEPTH_ADDR:
@@ -135,15 +137,16 @@ def gen_cases(fns, r, quick):
     for c in cases:
         k = (c["f"], tuple(c["sc"]), tuple(tuple(b) for b in c["bufs"]))
         if k in seen: continue
-        seen.add(k); c["id"] = len(out); out.append(c)
+        seen.add(k); c["id"] = first_id + len(out); out.append(c)
     return out
 
 def script_of(fns, cs):
     L = ["start 1 - 0"]
     for c in cs:
         f = fns[c["f"]]
-        L += ["case %d" % c["id"], "seqon 0", "reset_nodes",
-              "sendfn %d %s %s%s" % (f["idx"], f["name"], hexs(c["sc"]), "".join(" " + hexs(b) for b in c["bufs"])), "flush"]
+        call = "%d %s %s%s" % (f["idx"], f["name"], hexs(c["sc"]), "".join(" " + hexs(b) for b in c["bufs"]))
+        # a compound function (bidib_send_sys_reset) never returns without a bus: first message only, own process
+        L += ["case %d" % c["id"], "seqon 0", "reset_nodes"] + (["sendfn_first " + call] if f["compound"] else ["sendfn " + call, "flush"])
     return "\n".join(L) + "\n"
 
 # ------------------------------------------------------------------ judging
@@ -236,6 +239,53 @@ def run_impl(exe, fns, cases):
     for i in range(0, len(cases), B): batch(cases[i:i + B])
     return res
 
+def judge(ck, fns, exe, md, cases, st):
+    """run one shard of cases through the generated model, the specification and the implementation; compare; accumulate"""
+    script = script_of(fns, cases)
+    gen = vlib.split_cases(subprocess.run([md, "gen"], input=script, capture_output=True, text=True, timeout=3000).stdout)
+    spec = vlib.split_cases(subprocess.run([md, "spec"], input=script, capture_output=True, text=True, timeout=3000).stdout)
+    del script
+    # calls on which the model predicts a memory fault, and the compound function, run in their own process
+    risky = [c for c in cases if fns[c["f"]]["compound"] or any(l.startswith("model-fault") for l in gen.get(str(c["id"]), []))]
+    risky_ids = {c["id"] for c in risky}
+    safe = [c for c in cases if c["id"] not in risky_ids]
+    impl = run_impl(exe, fns, safe)
+    for c in risky: impl.update(run_impl(exe, fns, [c]))
+    st["n"] += len(cases); st["risky"] += len(risky)
+    dist = st["dist"]; per_fn = st["per_fn"]; samples = st["samples"]
+    prev = None
+    for c in cases:
+        f = fns[c["f"]]; cid = str(c["id"])
+        lines, crashed = impl.get(c["id"], ([], "not run"))
+        msgs = wire_msgs(lines)
+        if any(l.startswith("sendfn-") for l in lines): crashed = crashed or lines[0]
+        sl = (spec.get(cid) or [None])[0]
+        gl = gen.get(cid, [])
+        dist[c["tag"].split(":")[0]] = dist.get(c["tag"].split(":")[0], 0) + 1
+        pf = per_fn.setdefault(f["short"], {"cases": 0, "accepted": 0, "rejected": 0})
+        pf["cases"] += 1; pf["accepted" if sl and sl != "spec rejected" else "rejected"] += 1
+        if c["tag"].startswith("sweep") and prev is not None and prev[0] == (c["f"], c["tag"], tuple(c["sc"][:3])) and (prev[1] == "spec rejected") != (sl == "spec rejected"): st["crossings"] += 1
+        prev = ((c["f"], c["tag"], tuple(c["sc"][:3])), sl)
+        def rep():
+            return {"property": "C18", "function": f["name"], "scalars": dict(zip(f["scalars"], c["sc"])), "buffers": [hexs(b) for b in c["bufs"]],
+                    "script": script_of(fns, [c]), "impl": lines, "sanitizer": crashed, "model": gl, "spec": sl}
+        if not corr_agree(f, gl, msgs, crashed):
+            st["dis"] += 1
+            if st["dis"] <= 3: ck.broken.append({"kind": "correspondence", "name": "corr_sendfns", "case": rep()})
+        v = oracle(f, sl, msgs, crashed)
+        if v:
+            st["orc"] += 1; key = classify(f, c, v[0])
+            if key in st.setdefault("keys", {}):       # one replay per key is enough (the first, smallest-index case)
+                st["keys"][key] += 1
+                if key in [k["key"] for k in ck.known]: st["orc_known"] += 1
+                continue
+            st["keys"][key] = 1
+            d = rep(); d["reason"] = v[1]; d["key"] = key
+            before = len(ck.violations); ck.violation(key, d)
+            if len(ck.violations) == before: st["orc_known"] += 1
+        elif len(samples) < 4 and sl != "spec rejected" and c["tag"] in ("payload", "pair") and len(c["sc"]) > 4 and f["name"] not in [x["function"] for x in samples]:
+            d = rep(); samples.append({k: d[k] for k in ("function", "scalars", "buffers", "impl", "spec")})
+
 def run(ck):
     quick = ck.tier == "quick"
     cdir, ok = vlib.proof_phase(ck, "Properties_C18.v", translators=("tables", "sendfns"))
@@ -252,48 +302,18 @@ def run(ck):
     fns = fn_table(cdir)
     exe = vlib.build_harness(); md = vlib.build_model_driver(cdir, "_C18")
     r = Rng(ck.seed).fork("C18")
-    cases = gen_cases(fns, r, quick)
-    script = script_of(fns, cases)
-    gen = vlib.split_cases(subprocess.run([md, "gen"], input=script, capture_output=True, text=True, timeout=3000).stdout)
-    spec = vlib.split_cases(subprocess.run([md, "spec"], input=script, capture_output=True, text=True, timeout=3000).stdout)
-    # cases on which the model predicts a memory fault run in their own process
-    risky = [c for c in cases if any(l.startswith("model-fault") for l in gen.get(str(c["id"]), []))]
-    safe = [c for c in cases if c not in risky] if risky else cases
-    risky_ids = {c["id"] for c in risky}
-    safe = [c for c in cases if c["id"] not in risky_ids]
-    impl = run_impl(exe, fns, safe)
-    for c in risky: impl.update(run_impl(exe, fns, [c]))
-    dis = 0; orc = 0; orc_known = 0; dist = {}; per_fn = {}; samples = []; crossings = 0
-    prev = None
-    for c in cases:
-        f = fns[c["f"]]; cid = str(c["id"])
-        lines, crashed = impl.get(c["id"], ([], "not run"))
-        msgs = wire_msgs(lines)
-        if any(l.startswith("sendfn-") for l in lines): crashed = crashed or lines[0]
-        sl = (spec.get(cid) or [None])[0]
-        gl = gen.get(cid, [])
-        dist[c["tag"].split(":")[0]] = dist.get(c["tag"].split(":")[0], 0) + 1
-        st = per_fn.setdefault(f["short"], {"cases": 0, "accepted": 0, "rejected": 0})
-        st["cases"] += 1; st["accepted" if sl and sl != "spec rejected" else "rejected"] += 1
-        if c["tag"].startswith("sweep") and prev is not None and prev[0] == (c["f"], c["tag"], tuple(c["sc"][:3])) and (prev[1] == "spec rejected") != (sl == "spec rejected"): crossings += 1
-        prev = ((c["f"], c["tag"], tuple(c["sc"][:3])), sl)
-        rep = {"property": "C18", "function": f["name"], "scalars": dict(zip(f["scalars"], c["sc"])), "buffers": [hexs(b) for b in c["bufs"]],
-               "script": script_of(fns, [c]), "impl": lines, "sanitizer": crashed, "model": gl, "spec": sl}
-        if not corr_agree(f, gl, msgs, crashed):
-            dis += 1
-            if dis <= 3: ck.broken.append({"kind": "correspondence", "name": "corr_sendfns", "case": rep})
-        v = oracle(f, sl, msgs, crashed)
-        if v:
-            orc += 1; key = classify(f, c, v[0]); rep["reason"] = v[1]; rep["key"] = key
-            before = len(ck.violations); ck.violation(key, rep)
-            if len(ck.violations) == before: orc_known += 1
-        elif len(samples) < 3 and c["tag"] == "payload" and sl != "spec rejected" and c["f"] % 7 == len(samples):
-            samples.append({k: rep[k] for k in ("function", "scalars", "buffers", "impl", "spec")})
-    ck.oblige("correspondence corr_sendfns (implementation == generated functions on %d calls of %d functions)" % (len(cases), len(fns)), dis == 0, "%d disagreements" % dis)
+    st = {"dis": 0, "orc": 0, "orc_known": 0, "dist": {}, "per_fn": {}, "samples": [], "crossings": 0, "n": 0, "risky": 0}
+    shard = 73 if quick else 6          # functions per shard (bounds memory in the thorough tier)
+    for s0 in range(0, len(fns), shard):
+        cases = gen_cases(fns, r, quick, only={f["idx"] for f in fns[s0:s0 + shard]}, first_id=st["n"])
+        judge(ck, fns, exe, md, cases, st)
+    dis, orc, orc_known, dist, per_fn, samples, crossings = st["dis"], st["orc"], st["orc_known"], st["dist"], st["per_fn"], st["samples"], st["crossings"]
+    ncases = st["n"]; nrisky = st["risky"]
+    ck.oblige("correspondence corr_sendfns (implementation == generated functions on %d calls of %d functions)" % (ncases, len(fns)), dis == 0, "%d disagreements" % dis)
     ck.oblige("specification oracle accepts the implementation's wire output (known findings excepted)", orc == orc_known, "%d rejected, %d of them known findings" % (orc, orc_known))
     never = [n for n, s in per_fn.items() if s["accepted"] == 0]
-    ck.coverage.update({"evaluations": len(cases), "distinct_nontrivial": crossings + dist.get("payload", 0), "distribution": dist,
-                        "functions": len(fns), "functions_never_accepted": never, "calls_run_in_own_process_(model_predicts_fault)": len(risky),
+    ck.coverage.update({"evaluations": ncases, "violation_keys": st.get("keys", {}), "distinct_nontrivial": crossings + dist.get("payload", 0), "distribution": dist,
+                        "functions": len(fns), "functions_never_accepted": never, "calls_run_in_own_process_(model_predicts_fault_or_compound)": nrisky,
                         "oracle_rejections_incl_known": orc, "disagreements_checked": dis,
                         "rule": "per public function: 7 address forms; every non-address scalar over 0..255 around an accepted tuple; boundary x boundary for parameter pairs; random boundary tuples; every payload length 0..max+1 (and beyond) at address depth 0..3 with plain/whitespace/escape-byte contents. non-trivial = accept/reject transitions crossed inside sweeps + payload cases",
                         "samples": samples})
